@@ -1289,6 +1289,9 @@ class Engine:
             return conc_seq_view([self.lift_key(k) for k in v.d], None, 'list')
         if isinstance(v, SetVal):
             return conc_seq_view(v.items, None, 'list')
+        if isinstance(v, (Ref, Rec)) and v.cls == 'range':
+            flds = st.heap[v.oid].fields if isinstance(v, Ref) else v.fields
+            return ops.range_view(flds['start'], flds['stop'], flds['step'])
         if isinstance(v, Ref):
             ent = self.find_method(v.cls, '__iter__')
             raise Unsupported('iteration over object %s' % v.cls)
